@@ -413,10 +413,51 @@ func c09Phase(r *core.Run, prog *core.Program) {
 		fns = append(fns, fn)
 	}
 	sort.Slice(fns, func(i, j int) bool { return fns[i].String() < fns[j].String() })
+	// helpers: functions that only dispatch, or only join (the two loops of VM.Step moved into methods)
+	hasDispatch, hasJoin, hasProcWrite := map[*ssa.Function]bool{}, map[*ssa.Function]bool{}, map[*ssa.Function]bool{}
+	for _, fn := range fns {
+		for _, b := range fn.Blocks {
+			for _, ins := range b.Instrs {
+				switch x := ins.(type) {
+				case *ssa.Store:
+					if throughProcessors(x.Addr) {
+						hasProcWrite[fn] = true
+					}
+				case *ssa.MapUpdate:
+					if throughProcessors(x.Map) {
+						hasProcWrite[fn] = true
+					}
+				case *ssa.Send:
+					if _, indexed := fieldNameOfLoad(x.Chan); indexed {
+						hasDispatch[fn] = true
+					}
+				case *ssa.UnOp:
+					if x.Op == token.ARROW {
+						if nm, indexed := fieldNameOfLoad(x.X); nm != "" && !indexed {
+							hasJoin[fn] = true
+						}
+					}
+				}
+			}
+		}
+	}
 	for _, fn := range fns {
 		var dispatch, join, writes []ssa.Instruction
 		for _, b := range fn.Blocks {
 			for _, ins := range b.Instrs {
+				if call, ok := ins.(*ssa.Call); ok {
+					if c := call.Call.StaticCallee(); c != nil && c != fn {
+						if hasDispatch[c] && !hasJoin[c] {
+							dispatch = append(dispatch, ins)
+						}
+						if hasJoin[c] && !hasDispatch[c] {
+							join = append(join, ins)
+						}
+						if hasProcWrite[c] && !hasDispatch[c] && !hasJoin[c] {
+							writes = append(writes, ins) // a helper of the coordinator that writes processors' state
+						}
+					}
+				}
 				switch x := ins.(type) {
 				case *ssa.Send:
 					if _, indexed := fieldNameOfLoad(x.Chan); indexed {
